@@ -14,7 +14,7 @@ if r.returncode:
     print("APPLY FAILED", r.stderr); sys.exit(3)
 try:
     for p in props:
-        o = subprocess.run(["/venv/bin/python", "/verif/check", p, "--tier", "thorough", "--no-write"], capture_output=True, text=True, timeout=300)
+        o = subprocess.run(["/venv/bin/python", "/verif/check", p, "--tier", "quick", "--no-write"], capture_output=True, text=True, timeout=300)
         lines = [l for l in o.stdout.splitlines() if "VIOLATION" in l or "ANALYSIS-ERROR" in l or (" -- " in l and not l.startswith("KNOWN"))]
         if o.returncode:
             print(f"{p} rc={o.returncode}")
